@@ -254,6 +254,11 @@ def analyse(ctx, replace=None, only=None):
         if f.name == "aws_array_list_mem_swap":
             exits = states.get(-1, [])
             R.require(len(exits) >= 1, "mem_swap: no exit state")
+            alt = _swap_cover_offsets(f, num)
+            if alt is not None:
+                R.check(alt[0], "COVER", "mem_swap:all-bytes", "%s() exit" % f.name, "slices at k*S for every k < N plus the remainder at N*S cover exactly item_size bytes",
+                        "the sliced swap does not cover the element: %s" % alt[1])
+                exits = []
             for st in exits:
                 loc = "%s() exit" % f.name
                 ok, cov, sz0 = _swap_cover(f, num, st)
@@ -415,6 +420,65 @@ def _swap_cover(f, num, st):
     return eq(st, cov, size), cov, size
 
 
+def _swap_cover_offsets(f, num):
+    """COVER for the other way to write the sliced swap: every copy addresses `item + offset` from the unmodified parameter.
+    (1) the slice loop presents every k in [0, N) (RU.loop_cover) and copies S bytes at offset k*S (NUM at the copy);
+    (2) the remainder copy, where there is one, starts at N*S and ends at item_size; (3) on exits without a remainder copy
+    N*S == item_size.  Returns (ok, detail) or None when the function is not of this form."""
+    p1, psz = f.params[0]["n"], f.params[2]["n"]
+    tainted, et = RU.derives(f, lambda n: n["k"] == "var" and n["n"] == p1)
+    copies = [e for e in f.calls({"memcpy", "__builtin_memcpy", "__builtin___memcpy_chk"}) if et(RU.arg(f, e.node, 0))]
+    loops = num.loops()
+    inl = [(e, h) for e in copies for h, body in loops.items() if e.blk in body]
+    outl = [e for e in copies if not any(e.blk in body for body in loops.values())]
+    if len(inl) != 1:
+        return None
+    e_in, h = inl[0]
+    cv = RU.loop_cover(f, h, loops[h])
+    if cv is None:
+        return None
+    var, Nnode, form = cv
+    try:
+        sts = num.states_at({e.node["id"] for e in copies} | {-1})
+    except Limit:
+        return False, "trace limit"
+
+    def start_size(st):
+        o = st.notes.get("orig", {})
+        start = Poly.atom(o["v:" + p1]) if o.get("v:" + p1) else st.env.get("v:" + p1)
+        size = Poly.atom(o["v:" + psz]) if o.get("v:" + psz) else st.env.get("v:" + psz)
+        return start, size
+    S = None
+    n_in = 0
+    for st in sts.get(e_in.node["id"], []):
+        n_in += 1
+        start, size = start_size(st)
+        d, n = num.val(RU.arg(f, e_in.node, 0), st), num.val(RU.arg(f, e_in.node, 2), st)
+        i = st.env.get("v:" + var)
+        if None in (start, d, n, i) or not n.is_const():
+            return False, "slice copy not numeric"
+        S = n.cval()
+        k = (i - 1) if form == "count" else i
+        if not eq(st, d - start, k * S):
+            return False, "the slice copy of iteration %r starts at offset %r, not at %r" % (i, d - start, k * S)
+    if not n_in or S is None:
+        return False, "no state at the slice copy"
+    for e in outl:
+        for st in sts.get(e.node["id"], []):
+            start, size = start_size(st)
+            d, n, Nv = num.val(RU.arg(f, e.node, 0), st), num.val(RU.arg(f, e.node, 2), st), num.val(Nnode, st)
+            if None in (start, size, d, n, Nv) or not (eq(st, d - start, Nv * S) and eq(st, d - start + n, size)):
+                return False, "the remainder copy covers [%r, +%r) of %r bytes after %r slices" % (d - start if d is not None and start is not None else None, n, size, Nv)
+    for st in sts.get(-1, []):
+        start, size = start_size(st)
+        Nv = num.val(Nnode, st)
+        wrote_tail = any(sz_ is not None and not (sz_.is_const() and sz_.cval() == S) for (ln_, addr, sz_) in st.notes.get("memw_full", []) if addr is not None and start is not None and (addr - start).atoms() <= (Nv * S).atoms() | set())
+        tail_done = any(eq(st, (addr - start) + sz_, size) for (ln_, addr, sz_) in st.notes.get("memw_full", []) if addr is not None and sz_ is not None and start is not None)
+        if not tail_done and (Nv is None or size is None or not eq(st, Nv * S, size)):
+            return False, "an exit without a remainder copy where %r slices of %d bytes do not make up %r" % (Nv, S, size)
+    return True, "offsets"
+
+
 def mem_swap_cover(R, P):
     """COVER obligation for the sliced element swap (shared with C06)"""
     f = P.fn("aws_array_list_mem_swap")
@@ -427,6 +491,11 @@ def mem_swap_cover(R, P):
         R.broken(str(ex))
         return
     R.require(len(exits) >= 1, "mem_swap: no exit state")
+    alt = _swap_cover_offsets(f, num)
+    if alt is not None:
+        R.check(alt[0], "COVER", "mem_swap:all-bytes", "%s() exit" % f.name, "slices at k*S for every k < N plus the remainder at N*S cover exactly item_size bytes",
+                "the sliced swap does not cover the element: %s" % alt[1])
+        return
     for st in exits:
         ok, cov, sz0 = _swap_cover(f, num, st)
         R.check(bool(ok), "COVER", "mem_swap:all-bytes", "%s() exit" % f.name, "slices plus remainder cover exactly item_size bytes",
